@@ -112,6 +112,15 @@ func (t *FnTrans) call(in ssa.Instruction, c *ssa.CallCommon, res ssa.Value) {
 		} else if fv.Nm != "" && t.ct != nil && t.ct.Callback[fv.Nm] != nil {
 			ct = t.ct.Callback[fv.Nm]
 			key = ct.Key
+		} else if strings.HasPrefix(fv.Nm, "field:") {
+			full := fv.Nm[len("field:"):]
+			i := strings.LastIndex(full, ".")
+			if ts := t.eng.specs.Types[full[:i]]; ts != nil && ts.Callbacks[full[i+1:]] != nil {
+				ct = ts.Callbacks[full[i+1:]]
+				key = ct.Key
+			} else {
+				key = "<dynamic field " + full + ">"
+			}
 		} else {
 			key = "<dynamic:" + c.Value.Name() + ">"
 		}
@@ -123,6 +132,13 @@ func (t *FnTrans) call(in ssa.Instruction, c *ssa.CallCommon, res ssa.Value) {
 	// intrinsics
 	if t.intrinsic(key, c, args, res) {
 		return
+	}
+	for _, a := range c.Args {
+		if t.sortOf(a.Type()) == "Int" {
+			if _, isInt := intInfoOf(t.resolve(a.Type())); !isInt {
+				t.mayHavePublished = true // a reference escapes into the callee
+			}
+		}
 	}
 	if ct == nil {
 		ct = t.eng.specs.Funcs[key]
@@ -223,13 +239,21 @@ func (t *FnTrans) applyContract(ct *Contract, key string, callee *ssa.Function, 
 	}
 	for i, n := range pn {
 		T := argTypes[i]
-		env.vars[n] = SVal{S: t.termOfOpt(args[i]), T: T, Sort: t.sortOf(T), P: args[i].P}
+		env.vars[n] = SVal{S: t.termOfOpt(args[i]), T: T, Sort: t.sortOf(T), Tgt: args[i].P}
+	}
+	if strings.HasPrefix(ct.Key, t.key+"#") || (t.ct != nil && strings.HasPrefix(ct.Key, t.ct.Key+"#")) {
+		// callback of this function: its contract may mention the function's own parameters
+		for n, v := range t.paramVals {
+			if _, clash := env.vars[n]; !clash {
+				env.vars[n] = SVal{S: v.S, T: t.paramTypes[n], Sort: t.sortOf(t.paramTypes[n])}
+			}
+		}
 	}
 	if callee != nil && fnVal.Bnd != nil {
 		for i, fv := range callee.FreeVars {
 			if i < len(fnVal.Bnd) {
 				T := t.resolve(fv.Type())
-				env.vars[fv.Name()] = SVal{S: t.termOfOpt(fnVal.Bnd[i]), T: T, Sort: t.sortOf(T), P: fnVal.Bnd[i].P}
+				env.vars[fv.Name()] = SVal{S: t.termOfOpt(fnVal.Bnd[i]), T: T, Sort: t.sortOf(T), Tgt: fnVal.Bnd[i].P}
 			}
 		}
 	}
@@ -288,6 +312,14 @@ func (t *FnTrans) applyContract(ct *Contract, key string, callee *ssa.Function, 
 	env.selfAlloc0 = pre.H["$alloc"]
 	for _, en := range ct.Ensures {
 		t.assume(env.evalBool(en.E))
+	}
+	if strings.Contains(ct.Key, "#") && ct.Trusted {
+		// callback contracts have no body: their ghost updates are performed here, by the caller
+		for _, g := range ct.Ghost {
+			if g.Arg == "at return" {
+				t.ghostUpdate(g, env)
+			}
+		}
 	}
 	for _, m := range ct.Modifies {
 		if m.E.Op == "call" && m.E.Name == "ghost" {
@@ -423,7 +455,7 @@ func (t *FnTrans) modItem(x *Expr, env *Env, f func(comp, sort, ref string)) {
 		if !ok {
 			t.fail("modifies *%s: not a pointer", x.Args[0])
 		}
-		p := v.P
+		p := v.Tgt
 		if p == nil {
 			p = t.ptrFromRef(v.S, pt.Elem())
 		}
